@@ -932,6 +932,15 @@ func credRaw(c int64, t uint64) uint64 {
 	return ring.CRed(uint64(c), t)
 }
 
+// KERNELLEN control: half rows handed to the 8-wide kernels whatever the ring degree
+func addHalves(r *ring.Ring, p1, p2 ring.Poly, s0, s1 uint64) {
+	h := r.N() >> 1
+	for i, s := range r.SubRings {
+		s.AddScalar(p1.Coeffs[i][:h], s0, p2.Coeffs[i][:h])
+		s.AddScalar(p1.Coeffs[i][h:], s1, p2.Coeffs[i][h:])
+	}
+}
+
 // INDEG control: the first two components of the input, whatever its degree
 func (e fixEvaluator) SumTwo(ctIn, opOut *rlwe.Ciphertext) {
 	e.r.Add(ctIn.Value[0], ctIn.Value[1], opOut.Value[0])
